@@ -2508,7 +2508,10 @@ webdav_delete_file (const plugin_config * const pconf,
                     const physical_st * const dst)
 {
     if (0 == unlink(dst->path.ptr)) {
-        stat_cache_delete_entry(BUF_PTR_LEN(&dst->path));
+        /*(callers might have temporarily replaced trailing '/' with '\0',
+         * so use strlen() of path instead of buffer length)*/
+        stat_cache_delete_entry(dst->path.ptr,
+                                (uint32_t)strlen(dst->path.ptr));
         return webdav_prop_delete_uri(pconf, &dst->rel_path);
     }
 
